@@ -445,11 +445,11 @@ pub fn run(ctx: &mut Ctx) {
     let q = ctx.tier == Tier::Quick;
     let lim = GenLimits { er_max: 9, big_min: 20, big_max: ctx.tier.pick(140, 300) };
     let schedule: Vec<(&str, u64)> = vec![
-        ("big-conn", if q { 450 } else { 8_000 }),
-        ("big-union", if q { 330 } else { 6_000 }),
-        ("closed-form", if q { 120 } else { 2_000 }),
-        ("er", if q { 360 } else { 6_000 }),
-        ("lattice", if q { 180 } else { 3_000 }),
+        ("big-conn", if q { 450 } else { 4_000 }),
+        ("big-union", if q { 330 } else { 3_000 }),
+        ("closed-form", if q { 120 } else { 1_000 }),
+        ("er", if q { 360 } else { 3_000 }),
+        ("lattice", if q { 180 } else { 1_500 }),
     ];
     let mut gi = 0u64;
     for (family, count) in schedule {
